@@ -23,6 +23,8 @@ pub enum C11Case {
     ToNat { a: Operand, nty: NatTy, by_value: bool },
     /// Bit <-> bool / uN
     BitConv { x: Nat },
+    /// `uN::try_from(&v)` (every native type) for a vector of more than 2^31 bits
+    ToNatGiant { g: super::giant::GiantSpec },
 }
 
 pub struct C11;
@@ -237,6 +239,31 @@ impl Property for C11 {
                 }
             }
         }
+        // beyond 2^31 and 2^32 bits: a small value (or not) in a giant vector
+        for len in super::giant::GIANT_LENS {
+            for heap_bv in [false, true] {
+                if !sh.mine() {
+                    continue;
+                }
+                for ones in super::giant::giant_lists(len) {
+                    if !f(C11Case::ToNatGiant { g: super::giant::GiantSpec { len, ones, heap_bv } }) {
+                        return;
+                    }
+                }
+            }
+        }
+        // slices of 2^k/width + 3 elements (a partial last storage word) for the rungs of the ladder
+        for k in 16..=tier.pick(21, 24) {
+            if !sh.mine() {
+                continue;
+            }
+            let (ty, nty) = [(TID_D, NatTy::U8), (TID_A, NatTy::U8), (TID_A, NatTy::U16), (TID_D, NatTy::U32), (TID_A, NatTy::U32)][k % 5];
+            let count = (1usize << k) / nty.bits() + 3;
+            let items: Vec<Nat> = (0..count).map(|i| Nat::new(nty, (i as u128 + 1).wrapping_mul(0x0123_4567_89AB_CDEF_0F1E_2D3C_4B5A_6979) | 1)).collect();
+            if !f(C11Case::FromSlice { ty, nty, items, skew: k % 2 }) {
+                return;
+            }
+        }
         // vectors -> integers: every length
         for ty in ROUTINE_TIDS {
             let c = fixed_cap(ty).unwrap_or(320);
@@ -362,6 +389,29 @@ impl Property for C11 {
                 st.class_if(a.len() > nty.bits() && sig <= nty.bits(), "long vector, small value");
                 st.class_if(exp.is_err(), "to uN: overflow");
                 st.note(case, a.len() == 0 || (sig as i64 - nty.bits() as i64).abs() <= 1 || (a.len() > nty.bits() && sig <= nty.bits()));
+                Ok(())
+            }
+            C11Case::ToNatGiant { g } => {
+                ensure!(g.valid(), "bad-case", "giant case with a set bit beyond the length");
+                if !super::giant::giant_available(g.len) {
+                    st.class("giant vector skipped: memory not available");
+                    st.note(case, false);
+                    return Ok(());
+                }
+                fn q<T: Subject>(g: &super::giant::GiantSpec) -> Vec<(NatTy, Result<u128, ConvertionError>)> {
+                    let v: T = g.build();
+                    NAT_TYS.iter().map(|&t| (t, v.to_nat(t, false))).collect()
+                }
+                let got = match catch(|| if g.heap_bv { q::<Bv>(g) } else { q::<Bvd>(g) }) {
+                    Ok(x) => x,
+                    Err(p) => fail!("to-uN:giant/panic", "uN::try_from(&v) for a {}-bit vector with ones at {:?} panicked: {}", g.len, g.ones, p),
+                };
+                for (t, r) in got {
+                    let exp = if g.significant() <= t.bits() { Ok(g.low_u128().unwrap()) } else { Err(ConvertionError::NotEnoughCapacity) };
+                    ensure!(r == exp, format!("to-{}:giant/wrong", t.name()), "{}::try_from(&v) for a {}-bit vector with ones at {:?} = {:?}, expected {:?}", t.name(), g.len, g.ones, r, exp);
+                }
+                st.class("giant vector (> 2^31 bits)");
+                st.note(case, true);
                 Ok(())
             }
             C11Case::BitConv { x } => {
